@@ -195,7 +195,7 @@ pub fn universe() -> Vec<Member> {
         // same constructor, different arguments (must not merge)
         m!(core Option<u8>, "Option<u8>"),
         m!(Option<bool>, "Option<bool>"),
-        m!(Option<Box<u8>>, "Option<Box<u8>>"),
+        m!(core Option<Box<u8>>, "Option<Box<u8>>"),
         m!([u8; 2], "[u8;2]"),
         m!([u8; 3], "[u8;3]"),
         m!((u8, bool), "(u8,bool)"),
